@@ -9,7 +9,7 @@ import warnings
 warnings.filterwarnings("ignore")
 sys.path.insert(0, os.path.dirname(os.path.abspath(__file__)))
 import torch  # noqa: E402
-from modlib import DT, QT, QBytesTensor, QModuleMixin, QTensor, bits, build, deq  # noqa: E402
+from modlib import make_optimizer, DT, QT, QBytesTensor, QModuleMixin, QTensor, bits, build, deq  # noqa: E402
 
 from optimum.quanto import Calibration, freeze, quantize  # noqa: E402
 from optimum.quanto.tensor.qbits import QBitsTensor  # noqa: E402
@@ -69,7 +69,7 @@ def run_case(c):
     gen = torch.Generator().manual_seed(c["seed"] + 1)
     dtype = DT[c["dtype"]]
     model = build(c["tree"]).to(dtype).eval()
-    quantize(model, weights=QT[c["weights"]], activations=QT[c["activations"]])
+    quantize(model, weights=QT[c["weights"]], activations=QT[c["activations"]], **({"optimizer": make_optimizer(c["optimizer"], c["weights"])} if c.get("optimizer") else {}))
     probes = [(torch.randn(*c["input"], generator=gen) * s).to(dtype) for s in (1.0, 3.0)]
     log = []
     with torch.no_grad():
